@@ -1065,6 +1065,23 @@ impl World {
         if let Ok(w) = WMsk::decode(&bytes) {
             crate::tracing::check_msk(self, &w, what);
         }
+        // the bare access structure
+        let sb = ser(&self.msk.access_structure);
+        if sb.len() != self.msk.access_structure.length() {
+            self.fail("C13.l", format!("{what}: access structure length() = {}, serialised {}", self.msk.access_structure.length(), sb.len()));
+        }
+        match guarded!(cosmian_cover_crypt::AccessStructure::deserialize(&sb)) {
+            Ok(Ok(s2)) => {
+                if s2 != self.msk.access_structure {
+                    self.fail("C13.e", format!("{what}: deserialised access structure differs from the original"));
+                }
+                if wire::WStructure::decode(&ser(&s2)) != wire::WStructure::decode(&sb) {
+                    self.fail("C13.e", format!("{what}: re-serialised access structure decodes differently"));
+                }
+            }
+            Ok(Err(e)) => self.fail("C13.d", format!("{what}: own access structure rejected by deserialize: {e}")),
+            Err(_) => self.fail("C13.d", format!("{what}: deserialize(access structure) panicked")),
+        }
     }
 
     pub fn check_usk_object(&mut self, k: usize, what: &str) {
